@@ -141,6 +141,61 @@ func partConcurrent(c *check.Ctx, a *acc, prop string) {
 	a.add(done, nontrivial, "E2 concurrent blocks: after a sequential prefix judged by the model, 2-3 members of one session fire 1-4 requests each at once (classes: mutations on different keys, same-key writers, with a newcomer joining, with a member leaving, both), free-running, under jitter at injected scheduling points, or stepped (one arrival at a scheduling point that earlier blocks passed is parked for 25 ms while the others run); after a frame barrier and a barrier on every connection: exactly-once / never-echoed / per-sender order by origin tag, and every member's folded view (and the newcomer's) against the state handed to a probe; non-trivial when at least 2 senders' relays were attributed", samples...)
 }
 
+// partIntegrityStorm: E2 integrity storms (pipelined requests with unique
+// content from all members of two sessions at once).
+func partIntegrityStorm(c *check.Ctx, a *acc) {
+	bin, err := c.WS.Build("lab", "plain")
+	if err != nil {
+		c.Inconc("build failed: " + err.Error())
+		return
+	}
+	n := c.Pick(16, 160)
+	var mu sync.Mutex
+	done, reqs, relays, answers := 0, 0, 0, 0
+	workers := 8
+	parallel(workers, workers, func(w int) {
+		opts := sut.LabOpts{Frame: 3 * time.Millisecond, Name: "integrity"}
+		if w%2 == 1 {
+			opts.RT = "jitter"
+		}
+		p, err := c.WS.StartLab(bin, opts)
+		if err != nil {
+			c.Inconc(err.Error())
+			return
+		}
+		defer p.Kill()
+		for i := w; i < n; i += workers {
+			if !p.Alive() {
+				return
+			}
+			st := e2.IntegrityStorm(p, 2+i%2, 3+i%3, 30+(i*7)%40, c.Seed*1_000_003+int64(i))
+			mu.Lock()
+			if st.Inconclusive != "" {
+				c.Inconc(st.Inconclusive)
+			} else {
+				done++
+				reqs += st.Requests
+				relays += st.Relays
+				answers += st.Answers
+			}
+			for _, f := range st.Findings {
+				c.Report(f)
+			}
+			bad := len(st.Findings) > 0
+			mu.Unlock()
+			if bad {
+				return
+			}
+		}
+	})
+	c.Coverage["integrity_storms"] = done
+	c.Coverage["integrity_storm_requests"] = reqs
+	c.Coverage["integrity_storm_answers_matched"] = answers
+	c.Coverage["integrity_storm_relays_attributed_and_compared"] = relays
+	a.add(done, done, "E2 integrity storms: all members (3-5) of 2-3 sessions pipeline 30-70 requests each at once (custom messages, entity adds, actions and asset adds on own entities, all with unique content; request ids unique across connections), free-running or jittered; after barriers: every request id answered exactly once on its own connection, every accepted relay at every other member of its session exactly once, in the sender's order, with exactly the content sent, never at the sender, never in another session",
+		map[string]any{"engine": "E2 integrity storm", "storms": done, "requests": reqs, "relays_compared": relays})
+}
+
 // partStoreStress: E6 - concurrent Add/Update/Delete/List/DeleteByEntityID on
 // the real component store in a -race child, porcupine per key.
 func partStoreStress(c *check.Ctx, a *acc) {
